@@ -491,9 +491,24 @@ def status(F, rep):
     dom_all = f.dominators()
     for what, clo in (("code generation (IrCodegen::try_generate)", gen_closure),
                       ("project generation (ProjectGenerator::generate)", pg_closure)):
-        callers = [bi for bi, t in f.calls() if (callee_name(t) or "") in clo or
-                   any(x in clo for x in F.closure([callee_name(t)]) if callee_name(t) in F.fns)]
+        # the calls that actually perform the step: their closure reaches the step's core function
+        core = [p for p in F.fns if p.endswith("IrEmitter::<'a>::emit_program") or p.endswith("::emit_program")] \
+            if what.startswith("code") else [p for p in F.fns if p.endswith("ProjectGenerator::generate_cargo_toml")]
+        callers = [bi for bi, t in f.calls() if callee_name(t) in F.fns and
+                   any(c in F.closure([callee_name(t)]) for c in core)]
         ok = bool(cargo) and bool(callers) and all(any(c in dom_all.get(cb, set()) for c in callers) for cb in cargo)
+        # ... and by its SUCCESS edge: the step must be able to fail visibly (a Result whose Ok edge leads to cargo);
+        # an infallible variant that folds errors into its output (`// Generation error: ..`) would let a test whose
+        # file does not even compile run zero tests and be reported as passed
+        if ok:
+            from engines import variant_edges, SUCCESS_VARIANTS
+            from panicinv import dominated
+            ok_edges = []
+            for c in callers:
+                t = f.term(c)
+                if not t["d"]["p"] and "Result<" in f.local_ty(t["d"]["l"]):
+                    ok_edges += variant_edges(f, t["d"]["l"], SUCCESS_VARIANTS)
+            ok = bool(ok_edges) and all(dominated(f, cb, ok_edges) for cb in cargo)
         rep.oblige("STATUS", "fresh:" + what.split(" ")[0], ok,
                    sample={"rule": "STATUS", "cargo_invocation_dominated_by": what, "holds": ok})
         if not ok:
